@@ -189,6 +189,26 @@ def r14_2(ctx):
                 bad.append(f"path [{p.outcome}] {p.guard_text()[:80]} ends without reset after {names[last] if last >= 0 else '?'}")
         ctx.check(f"Compiler.{mname} leaves the transformer reset on every exit", not bad, "reset() after the last transform on all paths (incl. exception edges)", "; ".join(sorted(set(bad))[:3]) or "ok", fn_where(idx, fi))
     ctx.need(n_entry >= 2, f"expected compile_c_stmt and transform_insn to use the shared transformer, found {n_entry}")
+    # any call may raise: every transform() on the shared transformer sits in a try whose finally (or catch-all handler) resets it
+    for mname, m in ci.methods.items():
+        fi = idx.func(f"Compiler.{mname}")
+        parents = {}
+        for n in ast.walk(m):
+            for c in ast.iter_child_nodes(n):
+                parents[c] = n
+        for n in ast.walk(m):
+            if is_shared_transformer_call(n, "transform"):
+                cur, protected = n, False
+                while cur in parents:
+                    par = parents[cur]
+                    if isinstance(par, ast.Try) and cur in par.body:
+                        fin = any(is_shared_transformer_call(x, "reset") for s in par.finalbody for x in ast.walk(s))
+                        hnd = any((h.type is None or U(h.type) in ("Exception", "BaseException")) and any(is_shared_transformer_call(x, "reset") for s in h.body for x in ast.walk(s)) for h in par.handlers)
+                        if fin or hnd:
+                            protected = True
+                            break
+                    cur = par
+                ctx.check(f"Compiler.{mname}: an exception inside transform() still resets the transformer", protected, "transform() inside try ... finally: reset()", "no enclosing try/finally that resets" if not protected else "protected", fn_where(idx, fi))
     # entry points that build their own transformer must not touch the shared one
     fi = idx.func("Compiler.compile_sub_routine")
     uses_shared = [U(n) for n in ast.walk(fi.node) if isinstance(n, ast.Call) and (call_name(n) or "").startswith("self.transformer.")]
